@@ -34,7 +34,7 @@ def main():
             na.append({"property_id": pid, "reason": NOT_YET})
     m = {
         "version": 1,
-        "setup_cmd": "cd lean && lake build Tulz tulzdrv",
+        "setup_cmd": "bash tools/setup.sh",
         "hooks": {"guard": "TULZ_VERIF",
                   "enable": "no hook is needed: harnesses compile /repo sources directly (threaded code through harness/sched/remap.h); TULZ_VERIF is never defined",
                   "baseline_off_cmd": "bash tools/baseline.sh", "source_commits": [], "add_only": True},
